@@ -191,7 +191,7 @@ var PathSweepHeaders = []HeaderCombo{{}, {CT: JSON, Accept: JSON, Body: true, XC
 
 var baseTokens = []string{"a", "b", "{x}", "{y}", "{n:[0-9]+}", "{w:[a-z]}", "{s}.js", "{t:*}", "a:go", "{x}:go", "pre_{p}", "a.{p}.js"}
 var baseRoots = []string{"/", "/a", "/a/b", "/{r}", "/a/{r}", "/a/"}
-var baseSegs = []string{"a", "b", "7", "ab", "x.js", "a.js", "a:go", "7:go", "", "pre_z", "é{x}", "7go", "7:ungo"}
+var baseSegs = []string{"a", "b", "7", "ab", "x.js", "a.js", "a:go", "7:go", "", "pre_z", "é{x}", "7go", "7:ungo", ".js", "pre_"}
 
 // JSR311 documents literals, {v}, {v:regex} and the tail wildcard only.
 var jsrTokens = []string{"a", "b", "{x}", "{y}", "{n:[0-9]+}", "{w:[a-z]}", "{t:*}", "{g:[a-z]+(x7)?}"}
